@@ -13,7 +13,7 @@ ID = "C16"
 LEVEL = "model_checking"
 RULE = ("states are networks (canonical key = extracted netlist); initial states = every labelled multigraph topology "
         "of the listed levels x kind assignment over {Z,V,I,LV,short,open} (shorts and opens in every position, chained, "
-        "parallel, touching the reference) x orientation x reference node; transitions = the eight public simplification "
+        "parallel, touching the reference) x orientation x reference node (real values for even orientation masks, complex for odd); transitions = the eight public simplification "
         "operations with every admissible parameter (each element, each node, every subset of shorts as exemption list, "
         "exemption lists {none, each single source/short, all}); results are fed to further operations up to the stated "
         "depth; every transition is judged by a netlist-level reference of the operation, an input-unchanged snapshot and "
@@ -74,7 +74,8 @@ def run_shard(desc):
         for orient in range(2 ** b):
             for ref_idx in range(n):
                 labels = sp.LABELS_PLAIN[:n] if (orient + ref_idx) % 2 == 0 else sp.LABELS_ODD[:n]
-                nl = cm.build_netlist(topo, kt, orient, ref_idx, labels, "real", sp.IDS_ASC[:b])
+                # prime palette for even orientation masks, Gaussian-rational (complex) palette for odd ones
+                nl = cm.build_netlist(topo, kt, orient, ref_idx, labels, "real" if orient % 2 == 0 else "cplx", sp.IDS_ASC[:b])
                 explore(nl, [], depth, res, seen)
     return res
 
